@@ -10,7 +10,13 @@ package vsched
 import (
 	"fmt"
 	"runtime"
+	"unsafe"
 )
+
+// execBarrier: every controlled thread releases it when it ends and Run acquires it once the
+// execution is over, so (for the race detector) everything an execution did happens-before whatever
+// the explorer and later executions do. No edge between threads of one execution is created.
+var execBarrier byte
 
 type OpKind uint8
 
@@ -72,14 +78,20 @@ type Point struct {
 	RunningEnabled bool
 }
 
+// Dev is one deviation from the default schedule: at scheduling point Idx take alternative Alt.
+// Thread/NEn (when Thread >= 0) are what the parent execution saw there; a mismatch is a divergence.
+type Dev struct{ Idx, Alt, Thread, NEn int }
+
 type Config struct {
-	Choose   func(p *Point) int // returns an index into p.Enabled; nil = always 0
+	Devs     []Dev              // the schedule: default choice 0 everywhere except at these points
+	Choose   func(p *Point) int // optional callback instead of Devs (must not be used in race builds)
 	MaxSteps int64              // horizon; 0 = 1e6
 	Monitor  func()             // called at every scheduling point with every controlled thread parked
 }
 
 type Execution struct {
 	cfg      Config
+	devK     int
 	threads  []*Thread
 	cur      *Thread
 	steps    int64
@@ -186,7 +198,11 @@ func Run(cfg Config, main func()) *Execution {
 	go e.body(t, main)
 	t.gate.open()
 	e.done.wait()
+	HBAcquire(unsafe.Pointer(&execBarrier))
 	active = nil
+	if e.Diverged == "" && e.devK < len(e.cfg.Devs) && !e.Horizon {
+		e.Diverged = fmt.Sprintf("replay diverged: execution ended at point %d before the deviation at %d", e.steps, e.cfg.Devs[e.devK].Idx)
+	}
 	e.Steps = e.steps
 	e.NThreads = len(e.threads)
 	return e
@@ -220,6 +236,7 @@ func (e *Execution) body(t *Thread, fn func()) {
 			e.Panics = append(e.Panics, fmt.Sprintf("thread %d: %v\n%s", t.ID, r, buf))
 		}
 		t.finished = true
+		HBRelease(unsafe.Pointer(&execBarrier))
 		t.pending = Op{Kind: OpExit}
 		e.schedule(t, true)
 	}()
@@ -395,16 +412,26 @@ func (e *Execution) schedule(t *Thread, exiting bool) {
 	idx := 0
 	if e.cfg.Choose != nil {
 		idx = e.cfg.Choose(&p)
-		if idx < 0 || idx >= len(en) {
-			e.Diverged = fmt.Sprintf("choice %d out of range at step %d (enabled %v)", idx, e.steps, en)
-			e.Deadlock = false
-			e.finish()
-			if !exiting {
-				var forever gate
-				forever.wait()
-			}
-			return
+	} else if e.devK < len(e.cfg.Devs) && e.cfg.Devs[e.devK].Idx == int(e.steps) {
+		d := e.cfg.Devs[e.devK]
+		e.devK++
+		idx = d.Alt
+		if d.Thread >= 0 && (d.Thread != p.Thread || d.NEn != len(en)) {
+			e.Diverged = fmt.Sprintf("replay diverged at point %d: expected thread %d with %d enabled, got thread %d with %d", e.steps, d.Thread, d.NEn, p.Thread, len(en))
+			idx = -1
 		}
+	}
+	if idx < 0 || idx >= len(en) {
+		if e.Diverged == "" {
+			e.Diverged = fmt.Sprintf("choice %d out of range at step %d (enabled %v)", idx, e.steps, en)
+		}
+		e.Deadlock = false
+		e.finish()
+		if !exiting {
+			var forever gate
+			forever.wait()
+		}
+		return
 	}
 	p.Choice = idx
 	p.Chosen = en[idx]
